@@ -111,6 +111,9 @@ func c12Run(c *Ctx) {
 		// comments of every shape between the parts of object code change nothing
 		Lines(Var("acct", "{ /** owner **/ owner: \"o\", /* balance */ balance: 5, /**** flags ****/ flags: {a: 1}, /***/ z: 0 }"), Print("acct"), Print("acct.owner"), "/**** overrides ****/", "acct.owner = \"p\";", "/* plain */ acct.extra = 1; /** even **/", BI("delete", "acct", `"balance"`)+"; /*** odd ***/", Print("acct"), "/** last **/", Print(BI("keys", "acct"))),
 		Lines("/**/"+Var("o", "{}")+"/****/", "o.a /**/ = /*****/ 1;", "o /* x **/ .b = 2; /** y */", Print("o /***/ .a + o.b"), "/** a ** b *** c **/ "+Print("o")),
+		// a property value, and a returned value, may be an assignment written without parentheses
+		Lines(Var("seq", "{n: 1}"), Var("last", "{row: nil}"), Var("t", "0"), Fun("mkrow", "nm", " "+Ret("{id: seq.n = seq.n + 1, name: nm, meta: {owner: last.row = nm}}")+" "), Var("r1", `mkrow("ka")`), Print("r1"), Print(BI("keys", "r1")), Print("seq.n"), Print("last"), Print("{x: t = 5, y: t + 1}")),
+		Lines(Var("cache", "{}"), Fun("sq", "n", " "+Ret("cache.last = n * n")+" "), Print("sq(3)"), Print("cache"), Var("al", "cache"), Print("sq(4) + al.last"), Fun("link", "child, parent", " "+Ret("child.up = parent")+" "), Var("p", "{nm: 1}"), Var("ch", "{}"), Print("link(ch, p) == p"), Print(BI("keys", "ch")), BI("delete", "ch", `"up"`)+";", Print("ch")),
 		// a variable without a value in a declaration list is nil, not another object
 		Lines(K["var"]+" a = {n: 1}, b;", Print("a"), Print("b"), Print(`"before"`), Print("b.n"), Print(`"AFTER"`)),
 		Lines(Var("list", "{head: {v: 1, next: {v: 2, next: {v: 3, next: nil}}}}"), K["var"]+" cur = list.head, prev;", Var("guard", "0"), While("cur != nil && guard < 10", "{ "+Var("nx", "cur.next")+" cur.next = prev; prev = cur; cur = nx; guard = guard + 1; }"), Var("w", "prev"), Var("out", `""`), Var("g2", "0"), While("w != nil && g2 < 10", "{ out = out + w.v + \" \"; w = w.next; g2 = g2 + 1; }"), Print("out")),
